@@ -1,8 +1,8 @@
-import OpcuaVerif.Drv.EncDrv
+import OpcuaVerif.Drv.EncArms
 
-/-! C03 — driver: the shared codec driver (`Drv/EncDrv.lean`). -/
+/-! C03 — driver: the shared codec driver (`Drv/EncDrv.lean`) with arm tags (`Drv/EncArms.lean`). -/
 namespace OpcuaVerif.C03
 
-def driver : OpcuaVerif.Driver := OpcuaVerif.Enc.encDriver
+def driver : OpcuaVerif.Driver := OpcuaVerif.Enc.encDriverA
 
 end OpcuaVerif.C03
